@@ -279,7 +279,8 @@ class Interp:
                 d = dotted(x.func) or ""
                 args = [self.ev(a, env, calls) for a in x.args]
                 if d in ("float", "int") and args and (args[0] in UNTRUSTED or args[0] in (NONE,)):
-                    out |= {"ValueError", "TypeError", "OverflowError"}
+                    # the documented conversion errors, and whatever a user-defined __float__ / __int__ raises
+                    out |= {"ValueError", "TypeError", "OverflowError", "Exception"}
                 elif d in ("math.isnan", "math.isfinite", "math.isinf") and args and (args[0] in UNTRUSTED or args[0] == NONE):
                     out |= {"TypeError", "OverflowError"}
                 elif d in ("len", "iter", "list", "tuple", "sorted", "sum", "max", "min") and args and args[0] in UNTRUSTED:
